@@ -54,12 +54,13 @@ theorem C03_runtime_after_registered_partial (s : State) (ph : Phase) (ho : s.or
     simp [orchResume, ho, h, hc, hr, State.emit]
 
 /-- **Launch: one process per file, once.** One step of the launch loop for file `p` (registration
-    open, name not yet known, room below the limit): one agent named `p` is created in `Started`,
+    open, name not yet known, room below the limit, the supervisor can execute the file): one agent named `p` is created in `Started`,
     one process `extension-p-<gen>` is executed (its exit channel exists from then on), and the loop
     goes on with the remaining files; `launchExtensions` recurses structurally over the file list, so
     every file is visited exactly once. -/
 theorem C03_launch_step (s : State) (ph : Phase) (p : String) (ps : List String)
-    (hreg : s.regOn = true) (hp : findAgent s p = none) (hroom : s.agents.length + 1 ≤ maxAgents) :
+    (hreg : s.regOn = true) (hp : findAgent s p = none) (hroom : s.agents.length + 1 ≤ maxAgents)
+    (hx : s.execFails.contains p = false) :
     launchExtensions s ph (p :: ps) =
       launchExtensions (({ s with agents := s.agents ++ [{ name := p, ext := true, serial := s.nextSerial }],
                                   nextSerial := s.nextSerial + 1,
@@ -67,7 +68,30 @@ theorem C03_launch_step (s : State) (ph : Phase) (p : String) (ps : List String)
                          s!"sup exec:{({ name := p, gen := s.gen, chanCreated := true } : Proc).full}") ph ps := by
   have hlen : ¬ (s.agents.length + 1 > maxAgents) := by omega
   simp only [launchExtensions, hreg, Bool.not_true, hp, Option.isSome_none, Bool.or_self, Bool.false_eq_true,
-    ↓reduceIte, List.length_append, List.length_cons, List.length_nil, Nat.zero_add, hlen]
+    ↓reduceIte, List.length_append, List.length_cons, List.length_nil, Nat.zero_add, hlen, hx]
+
+/-- **An extension that cannot be launched** (the supervisor's Exec fails): it exists as an agent in
+    `LaunchError` with error type `UnknownError`, `Extension.LaunchError` is the first fatal error
+    unless one was recorded before, no process and no exit channel exist for it (so a later reset has
+    nothing to signal or wait for), the remaining files are not launched and the init fails. -/
+theorem C03_launch_failure (s : State) (ph : Phase) (p : String) (ps : List String)
+    (hreg : s.regOn = true) (hp : findAgent s p = none) (hroom : s.agents.length + 1 ≤ maxAgents)
+    (hx : s.execFails.contains p = true) :
+    launchExtensions s ph (p :: ps) =
+      initFinish (storeFatal ((setAgent { s with agents := s.agents ++ [{ name := p, ext := true, serial := s.nextSerial }],
+                                                  nextSerial := s.nextSerial + 1 }
+                                 { name := p, ext := true, st := .launchError, errSet := true, errType := "UnknownError", serial := s.nextSerial }).emit
+                               s!"sup execfail:{extFull p s.gen}") "Extension.LaunchError") ph false "success" none ∧
+    (storeFatal ((setAgent { s with agents := s.agents ++ [{ name := p, ext := true, serial := s.nextSerial }],
+                                    nextSerial := s.nextSerial + 1 }
+                   { name := p, ext := true, st := .launchError, errSet := true, errType := "UnknownError", serial := s.nextSerial }).emit
+                 s!"sup execfail:{extFull p s.gen}") "Extension.LaunchError").procs = s.procs := by
+  have hlen : ¬ (s.agents.length + 1 > maxAgents) := by omega
+  refine ⟨?_, ?_⟩
+  · simp only [launchExtensions, hreg, Bool.not_true, hp, Option.isSome_none, Bool.or_self, Bool.false_eq_true,
+      ↓reduceIte, List.length_append, List.length_cons, List.length_nil, Nat.zero_add, hlen, hx]
+    rfl
+  · unfold storeFatal; split <;> rfl
 
 /-- the gate is armed with the number of extension files before anything is launched -/
 theorem C03_count_is_files (s : State) (ph : Phase) (hok : s.extFiles.length ≥ s.initFlow.extRegistered.arrived) :
